@@ -338,9 +338,13 @@ def repair_expr(e, pv, hits):
   """replace every maximal constant operator tree whose self-determined SystemVerilog value differs from the python
   value by a literal holding the python value"""
   c = const_tree(e, pv)
-  if c is not None and c[3] and c[0] >= 0 and c[4] != c[0]:
-    hits.append((c[3], e, c[0], 'narrowed' if c[2] else 'overflow'))
-    return ('lit', max(c[1], c[0].bit_length(), 1), c[0])
+  if c is not None and c[3]:
+    if c[0] >= 0 and c[4] != c[0]:
+      hits.append((c[3], e, c[0], 'narrowed' if c[2] else 'overflow'))
+      return ('lit', max(c[1], c[0].bit_length(), 1), c[0])
+    # a maximal constant tree whose SystemVerilog value already equals the python value is left alone as a whole:
+    # folding one of its sub-trees only (e.g. the `1'(k) - 1'd1` inside `( 1'(k) - 1'd1 ) >> 1'd2`) would change it
+    return e
   k = e[0]; R = lambda x: repair_expr(x, pv, hits)
   if k in ('member',): return (k, R(e[1]), e[2])
   if k == 'range': return (k, R(e[1]), e[2], e[3])
